@@ -755,6 +755,18 @@ theorem good_congr {s t : St} (h : Good s) (hc : t.children = s.children) (hp : 
       by intro a ha; rw [hfc]; exact h6 a ha, by intro b hb; rw [hfc]; exact h7 b hb, by rw [hl]; exact h8⟩
   · intro he; rw [hu, hl]; exact h.none (by rw [← hp]; exact he)
 
+theorem runCallback_eq (s : St) : runCallback s =
+    match s.pending with
+    | [] => s
+    | (n, d) :: rest =>
+      match findChild s n with
+      | none => { s with pending := rest }
+      | some c => if c.timer = some d then timerFire { s with pending := rest } n else { s with pending := rest } := by
+  unfold runCallback
+  cases s.pending with
+  | nil => rfl
+  | cons x rest => obtain ⟨n, d⟩ := x; rfl
+
 theorem step_good (s : St) (h : Good s) (op : Op) (hv : validOp op) : Good (step s op) := by
   have hclear : Good (clearOut s) := good_congr h rfl rfl rfl rfl
   cases op with
@@ -787,6 +799,23 @@ theorem step_good (s : St) (h : Good s) (op : Op) (hv : validOp op) : Good (step
       · exact hclear
     · exact hclear
   | advance d => exact good_congr hclear rfl rfl rfl rfl
+  | dispatch n =>
+    show Good (dispatch (clearOut s) n)
+    unfold dispatch
+    repeat' split
+    all_goals first | exact hclear | exact good_congr hclear rfl rfl rfl rfl
+  | runcb =>
+    show Good (runCallback (clearOut s))
+    rw [runCallback_eq]
+    split
+    · exact hclear
+    · next n d rest _ =>
+      have h1 : Good { clearOut s with pending := rest } := good_congr hclear rfl rfl rfl rfl
+      split
+      · exact h1
+      · split
+        · exact timerFire_good _ h1 n
+        · exact h1
 
 theorem reach_good {s : St} (h : Reach s) : Good s := by
   induction h with
